@@ -107,6 +107,9 @@ def gen_direct_ops(rng, spec, execute_op, view, nops):
             op = dict(kind="resume", t=t, newc=newc)
         elif r < 0.92 and running:
             op = dict(kind="stop", t=rng.choice(running))
+        elif r < 0.935 and spec.get("nan_cols"):
+            # the same blackbox object serves as surrogate / transfer-learning data source in between
+            op = dict(kind="hov", curves=rng.random() < 0.5)
         elif r < 0.97 or not illegal:
             op = dict(kind="busy")
         else:
@@ -122,7 +125,7 @@ def gen_direct_ops(rng, spec, execute_op, view, nops):
                 op = dict(kind="stop", t=view.n + 1)
         if op is None:
             continue
-        if op["kind"] != "sleep":
+        if op["kind"] not in ("sleep", "hov"):
             op["dt_in"] = gen_dt(rng, scale)      # real time passes before every backend call, busy_trial_ids included
         if not execute_op(op):
             return
@@ -179,6 +182,9 @@ def run_direct(spec, ops_in, rng=None, nops=0, np_seed=0):
                     be.busy_trial_ids()
                 elif k == "sleep":
                     sh.do_sleep(be, log)
+                elif k == "hov":
+                    bb.hyperparameter_objectives_values(predict_curves=bool(op.get("curves")))
+                    log.append(dict(kind="hov", curves=bool(op.get("curves")), clock=be.time_keeper.time()))
             except Exception:
                 if len(log) > n0 and "dt_in" in op:
                     log[-1]["dt_in"] = op["dt_in"]
@@ -207,7 +213,7 @@ def ops_for_replay(log):
     out = []
     for op in log:
         o = dict(kind=op["kind"])
-        for k in ("cfg", "maxres", "t", "newc", "lvl", "ids"):
+        for k in ("cfg", "maxres", "t", "newc", "lvl", "ids", "curves"):
             if k in op:
                 o[k] = op[k]
         if "dt_in" in op:
@@ -224,7 +230,11 @@ def gen_tuner_params(rng, spec):
     return dict(kind=kind, n_workers=rng.randint(1, 4), seed=rng.randrange(10 ** 6),
                 max_trials=rng.randint(3, 10), grace=(1 if spec["nfid"] <= 2 else rng.choice([1, 1, 2])), rf=rng.choice([2, 3]),
                 without_delay=rng.random() < 0.5, dt_scale=rng.choice([0.0, 0.01, 0.125, 1.0]),
-                wait=rng.random() < 0.5, max_wallclock=rng.choice([None, 5.0, 20.0]))
+                wait=rng.random() < 0.5, max_wallclock=rng.choice([None, 5.0, 20.0]),
+                # sleep_time the Tuner is constructed with: 0, omitted (library default) or 600; the simulated
+                # sleep is the backend's tuner_sleep_time in every case
+                tuner_sleep=rng.choice([0, 0, "default", 600]),
+                hov=rng.random() < 0.5)
 
 
 class RunTooLong(Exception):
@@ -291,8 +301,11 @@ def run_tuner(spec, tp):
             np.random.seed(tp["seed"] % (2 ** 31))
             be, bb = sh.make_backend(spec, fake, dt_source, log)
             stop = StoppingCriterion(max_num_trials_started=tp["max_trials"], max_wallclock_time=tp["max_wallclock"])
+            if tp.get("hov"):
+                bb.hyperparameter_objectives_values(predict_curves=False)
+            sleep_kw = {} if tp.get("tuner_sleep", 0) == "default" else dict(sleep_time=tp.get("tuner_sleep", 0))
             tuner = Tuner(trial_backend=be, scheduler=sch, stop_criterion=stop, n_workers=tp["n_workers"],
-                          sleep_time=0, callbacks=[RecordingCallback()], save_tuner=False,
+                          callbacks=[RecordingCallback()], save_tuner=False, **sleep_kw,
                           start_jobs_without_delay=tp["without_delay"], tuner_name="c10",
                           wait_trial_completion_when_stopping=tp["wait"], print_update_interval=1e9,
                           results_update_interval=1e9)
@@ -363,6 +376,14 @@ def run(ctx, replay=None):
                 spec = sh.gen_spec(rng, big=False)
                 if spec["sleep"] == 0.0:
                     spec["sleep"] = 0.5     # a tuner that never sleeps in simulated time need not terminate
+                spec["sleep"] = rng.choice([spec["sleep"], 0.1, 1.0])
+                if 0 in spec.get("nan_cols", []):
+                    # the schedulers rank by m0: keep that column complete, missing cells in the other column only
+                    for per_seed in spec["table"]:
+                        for rows in per_seed:
+                            for f, row in enumerate(rows):
+                                if row[1][0] != row[1][0]:
+                                    row[1][0] = float(1000 + f)
                 tp = gen_tuner_params(rng, spec)
             else:
                 spec, tp = item["spec"], item["tp"]
@@ -380,6 +401,10 @@ def run(ctx, replay=None):
         ctx.h("results_delivered", min(sum(len(op.get("results", [])) for op in log) // 10 * 10, 200))
         ctx.h("resumes", sum(1 for op in log if op["kind"] == "resume" and "err" not in op))
         ctx.h("checkpointing", spec["checkpointing"])
+        ctx.h("table_has_missing_cells", any(x != x for ps in spec["table"] for rows in ps for r_ in rows for x in r_[1]))
+        ctx.h("hyperparameter_objectives_values_calls", sum(1 for op in log if op["kind"] == "hov") + (1 if kind == "tuner" and case["tp"].get("hov") else 0))
+        if kind == "tuner":
+            ctx.h("tuner_sleep_time_arg", "%s / backend %s" % (case["tp"].get("tuner_sleep", 0), spec["sleep"]))
         # ---- independent checker on what the implementation delivered
         for what, sig in sh.check_log(spec, log)[:3]:
             ctx.violation("property", what, case=case, signature=signature_of(sig, spec, kind))
